@@ -337,6 +337,8 @@ def run(rep):
     rep.guarded("R-C05-fft", fftmodel.rule_conserve, "R-C05-fft")
     rep.floor("R-C05-fft", 6 + 7)
     import shares
+    shares.bound(rep, ("SincFixedIn",), "past the loaded frames the buffer holds leftovers of earlier chunks")
+    rep.floor("R-C05-bound", 9)
     shares.step(rep, ("SincFixedIn", "SincFixedOut"), "C01's uniform output grid, 1/ratio input samples apart")
     shares.provision(rep, ("SincFixedOut",), "a frame that was not supplied is read as stale buffer content")
     rep.floor("R-C01-poly", 1 + 9 + 6)
